@@ -475,6 +475,10 @@ def main(argv=None):
             sp['split_target'] = max(8, 4 * sp['shard'][1])
             sp['nsub'] = sp['shard'][1]
             sp['shard'] = None
+        else:
+            # unsharded jobs also give back their unexplored prefixes once they have done a fair share of paths
+            sp['path_budget'] = 60
+            sp['nsub'] = 8
         phase1.append(sp)
     results = _schedule(phase1, args.jobs)
     todo = results
@@ -487,7 +491,7 @@ def main(argv=None):
             if fr:
                 nsub = max(1, min(len(fr), 2 * r['spec'].get('nsub', 1)))
                 for i in range(nsub):
-                    sp = {k: v for k, v in r['spec'].items() if k not in ('split_target', '_id')}
+                    sp = {k: v for k, v in r['spec'].items() if k not in ('split_target', '_id', 'path_budget')}
                     sp['roots'] = fr[i::nsub]
                     sp['shard'] = 'r%d.%d/%d' % (rnd, i, nsub)
                     sp['path_budget'] = 40 if rnd < 8 else None     # big subtrees come back and are split again
